@@ -523,6 +523,8 @@ func main() {
 		}
 	}
 	vsync.ResetMaps()
+	// text rendering of messages holding unknown fields, lacking a required field, holding invalid UTF-8
+	evals += textOnly(r)
 	// a value that renders itself (encoding.TextMarshaler): its own text and its own error come back unchanged
 	for _, ts := range []*textStub{{text: "self: rendered"}, {text: ""}, {err: errors.New("cannot render")}} {
 		var txt string
